@@ -349,8 +349,8 @@ func ruleRecursionGuards(c *core.Ctx) {
 	c.Check(rule, "call-graph", "the call graph of the loaded packages was built (static calls, interface dispatch over all loaded types, function references)", func(o *core.Ob) {
 		o.Count(len(all))
 		o.Fact("%d functions, %d with a recognised guard, %d unguarded recursive components", len(all), nGuarded, len(sccs))
-		o.Require(len(all) > 1500, "only %d functions in the call graph", len(all))
-		o.Require(nGuarded >= 20, "only %d guarded functions recognised, expected at least 20", nGuarded)
+		o.Shape(len(all) > 1500, "only %d functions in the call graph", len(all))
+		o.Shape(nGuarded >= 20, "only %d guarded functions recognised, expected at least 20", nGuarded)
 	})
 	for _, comp := range sccs {
 		comp := comp
@@ -409,7 +409,7 @@ func ruleFlagGuards(c *core.Ctx) {
 				}
 			}
 		}
-		o.Require(len(gi) == 1, "expected one /Length resolution, found %d", len(gi))
+		o.Shape(len(gi) == 1, "expected one /Length resolution, found %d", len(gi))
 		for _, v := range gi {
 			ok := g.GuardedBy(v, func(a core.Atom) bool {
 				cmp, isCmp := a.AsCmp()
@@ -615,7 +615,7 @@ func ruleLimitTable(c *core.Ctx) {
 		}
 		if mk == nil {
 			o.Count(1)
-			o.Fail("index allocation not found")
+			o.Unrec("index allocation not found")
 			return
 		}
 		ok := g.GuardedBy(mk, func(a core.Atom) bool {
@@ -671,7 +671,7 @@ func rulePanicTable(c *core.Ctx) {
 				}
 			}
 		}
-		o.Require(n >= 15, "only %d panics found", n)
+		o.Shape(n >= 15, "only %d panics found", n)
 	})
 	c.Check(rule, "pdf/cipher-domain", "the cipher of a crypt filter can only be RC4 or AES when an encrypt/decrypt function runs (their default panics are unreachable)", func(o *core.Ob) {
 		pkg := c.Prog.Pkg("pdf")
@@ -695,7 +695,7 @@ func rulePanicTable(c *core.Ctx) {
 				return true
 			})
 		}
-		o.Require(n >= 5, "only %d crypt filter literals found", n)
+		o.Shape(n >= 5, "only %d crypt filter literals found", n)
 		gc := c.Prog.Func("pdf", "getCryptFilter")
 		src := c.Prog.Src(gc.Decl.Body)
 		o.At(gc.Site(gc.Decl, "CFM table"))
@@ -832,7 +832,7 @@ func rulePeekDiscardPre(c *core.Ctx) {
 				o.FailAt(fn.Site(call, ""), "PeekN is called with a non-constant window %s", core.ExprStr(call.Args[0]))
 			}
 		}
-		o.Require(n >= 10, "only %d PeekN calls found", n)
+		o.Shape(n >= 10, "only %d PeekN calls found", n)
 		// SkipString callers pass constants
 		for _, fn := range c.Prog.Funcs(pkg) {
 			info := fn.Info()
@@ -910,7 +910,7 @@ func rulePeekDiscardPre(c *core.Ctx) {
 				}
 			}
 		}
-		o.Require(n >= 3, "only %d Discard calls found", n)
+		o.Shape(n >= 3, "only %d Discard calls found", n)
 	})
 }
 
@@ -1383,7 +1383,7 @@ func ruleUncheckedAssertions(c *core.Ctx) {
 				return true
 			})
 		}
-		o.Require(n >= 10, "only %d unchecked assertions found", n)
+		o.Shape(n >= 10, "only %d unchecked assertions found", n)
 	})
 	c.Check(rule, "pdf.(*scanner).ReadArray/int-counter", "the counter of trailing integers that licenses array[k-2].(Integer) is only reset to zero, or incremented for an element tested to be an Integer", func(o *core.Ob) {
 		fn := c.Prog.Func("pdf", "(*scanner).ReadArray")
@@ -1615,7 +1615,7 @@ func ruleNoObjStmFromObjStm(c *core.Ctx) {
 				}
 			}
 		}
-		o.Require(n >= 5, "only %d canObjStm arguments found on the path", n)
+		o.Shape(n >= 5, "only %d canObjStm arguments found on the path", n)
 	})
 }
 
